@@ -107,8 +107,10 @@ CORPUS = [
 
 def main() -> None:
     req = json.load(sys.stdin)
+    layouts = None
     if 'sources' in req:
         sources = req['sources']
+        layouts = req.get('layouts')
     else:
         rng = random.Random(req['seed'])
         sources = list(CORPUS) + [gen_module(rng) for _ in range(req['n'])]
@@ -122,15 +124,22 @@ def main() -> None:
         system = model.System()
         system.options.verbosity = -10
         b = system.systemBuilder(system)
-        b.addModuleString(src, 'm%d' % i, is_package=(i % 3 == 0))
+        # three layouts in turn: a root package, a sub-module of a package (its parent is a Package: leaving it must reset
+        # currentMod to None, not to the parent), a plain root module
+        lay = layouts[i] if layouts else i % 3
+        if lay == 1:
+            b.addModuleString('"""package"""\n', 'pk%d' % i, is_package=True)
+            b.addModuleString(src, 'm%d' % i, parent_name='pk%d' % i, is_package=(i % 2 == 0))
+        else:
+            b.addModuleString(src, 'm%d' % i, is_package=(lay == 0))
         try:
             b.buildModules()
         except Exception as e:  # builder crashed: stack discipline was violated by an assert or else
-            failures.append({'source': src, 'what': 'builder raised %s: %s' % (type(e).__name__, e)})
+            failures.append({'source': src, 'layout': lay, 'what': 'builder raised %s: %s' % (type(e).__name__, e)})
             continue
         for name, before, after in observed:
             if after[1] != [] or after[0] is not before[0] or after[2] is not None:
-                failures.append({'source': src, 'what': 'after %s: current=%r stack=%r currentMod=%r'
+                failures.append({'source': src, 'layout': lay, 'what': 'after %s: current=%r stack=%r currentMod=%r'
                                  % (name, after[0], after[1], after[2])})
     json.dump({'modules': len(sources), 'skipnode_hits': hits['n'], 'failures': failures}, sys.stdout)
 
